@@ -1,7 +1,7 @@
 SPECIFICATION Spec
 CONSTANTS
-  FileSet <- FilesL2
-  QuerySeq <- QueriesL
+  CaseSet <- CasesL2
+  QueriesOf <- QOf
   StarFix = FALSE
   SubjectFix = TRUE
   CAListsPlain = TRUE
